@@ -72,8 +72,15 @@ func HarnessC10_inline() {
 	}
 	T := ndTree(d, keysAB, 1, ndScalarNN)
 	T2 := ndScalarNN()
+	// the name of the key that holds the target is EVERY lower-case letter
+	// (a symbolic byte): prefix handling of "$merge:<path>" / "$replace:<path>"
+	// must not depend on how the path starts
+	tk := ndStrN(1, "lower")
+	vAssume(vAnd(tk != "h", tk != "o"))
 	mkDoc := func(host any) map[string]any {
-		return map[string]any{"t": map[string]any{"x": vCopy(T), "p.q": T2}, "h": host, "o": 1}
+		m := map[string]any{"h": host, "o": 1}
+		m[tk] = map[string]any{"x": vCopy(T), "p.q": T2}
+		return m
 	}
 	var host, inlined any
 	twinFails := false
@@ -84,31 +91,31 @@ func HarnessC10_inline() {
 	switch form {
 	case 0: // map host, $merge with dotted string path
 		h := vCopy(local).(map[string]any)
-		h["$merge"] = "t.x"
+		h["$merge"] = tk + ".x"
 		host = h
 	case 1: // map host, $merge with list path
 		h := vCopy(local).(map[string]any)
-		h["$merge"] = []any{"t", "x"}
+		h["$merge"] = []any{tk, "x"}
 		host = h
 	case 2: // map host, list path through a key containing a dot
 		h := vCopy(local).(map[string]any)
-		h["$merge"] = []any{"t", "p.q"}
+		h["$merge"] = []any{tk, "p.q"}
 		host = h
 		target = T2
 	case 3: // map host, $replace (local content is dropped)
 		h := vCopy(local).(map[string]any)
-		h["$replace"] = "t.x"
+		h["$replace"] = tk + ".x"
 		host = h
 	case 4: // string host $merge:
-		host = "$merge:t.x"
+		host = "$merge:" + tk + ".x"
 	case 5: // string host $replace:
-		host = "$replace:t.x"
+		host = "$replace:" + tk + ".x"
 	case 6: // list host with a {$merge} entry: target must be a list
-		host = []any{"l0", map[string]any{"$merge": "t.x"}}
+		host = []any{"l0", map[string]any{"$merge": tk + ".x"}}
 	case 7: // list host with a {$replace} entry
-		host = []any{"l0", map[string]any{"$replace": "t.x"}}
+		host = []any{"l0", map[string]any{"$replace": tk + ".x"}}
 	default: // string host, path in YAML flow-list form
-		host = "$merge:[t, x]"
+		host = "$merge:[" + tk + ", x]"
 	}
 	switch form {
 	case 0, 1, 2:
@@ -134,12 +141,14 @@ func HarnessC10_inline() {
 	c10Compare([]any{ref}, []any{twin}, twinFails)
 	// the referenced subtree itself is left unchanged
 	if !twinFails {
-		alone, errAlone := c10EvalDocs([]any{map[string]any{"t": map[string]any{"x": vCopy(T), "p.q": T2}}})
+		aloneDoc := map[string]any{}
+		aloneDoc[tk] = map[string]any{"x": vCopy(T), "p.q": T2}
+		alone, errAlone := c10EvalDocs([]any{aloneDoc})
 		both, errBoth := c10EvalDocs([]any{mkDoc(host)})
 		if errAlone == nil && errBoth == nil {
 			a := alone[0].(map[string]any)
 			b := both[0].(map[string]any)
-			vAssert("C10.target.unchanged", vEq(a["t"], b["t"]))
+			vAssert("C10.target.unchanged", vEq(a[tk], b[tk]))
 		}
 	}
 }
